@@ -70,6 +70,24 @@ theorem interface_total_seek (nodes : List (List Nat)) (blk : Nat → Nat → Na
   have := (ops_invariant nodes.flatten _ true ops hj hsafe hops).2
   exact ⟨this.cache, fun h => (this.sync h).1⟩
 
+/-- **`__archive_read_filter_seek` never indexes outside `client.dataset[]`**: the model returns
+the distinguished status `oob` for an out-of-range index; with sound bookkeeping (one entry per
+node) and a behaving seek callback no request of any kind ever produces it. -/
+theorem seek_in_bounds (s : State) (off : Int) (w : Whence) (hc : CacheOk s) (hs : s.hasSeeker = true)
+    (hcs : s.canSeek = true) (hf : s.fatal = false) (hbl : s.bufSize < 2 ^ 63) (hq : SeeksOk s.seeks) :
+    (RA.seek s off w).1 ≠ oob := by
+  have h := seek_spec s off w hc hs hcs hf hbl
+  cases ht : targetOf s off w with
+  | none => rw [ht] at h; simp only [] at h; rw [h]; show (-30 : Int) ≠ -99; decide
+  | some t =>
+    rw [ht] at h
+    simp only [] at h
+    rcases h with ⟨_, p2, p3⟩ | ⟨_, p⟩
+    · obtain ⟨_, p4⟩ := p3 hq
+      unfold oob
+      split at p4 <;> omega
+    · exact absurd hq p
+
 /-- Where a returned window lives. -/
 theorem aheadLoop_shape (s : State) (min : Nat) (w : List Nat) (fc : Bool)
     (h : (aheadLoop s min).1 = .window w fc) :
